@@ -28,6 +28,15 @@ OptValid == pc = "done" =>
   /\ \A s \in expect.opt : ValidOrd(input, SpInfo[input.st], s) /\ CostOrd(input, SpInfo[input.st], s) = expect.min
   /\ expect.norders = 0 => expect.opt = {}
 
+\* every valid solution (mapping x root order x labelling) with its costs (C06)
+EvalExpected(inp, I, OI) ==
+  {[sol |-> s, rcost |-> RecCost(inp.ot, I, inp.c, s.m), lcost |-> LabCostOrd(inp, I, s)] :
+     s \in {x \in L0Solutions(inp, I, OI, FALSE) : ValidOrd(inp, I, x)}}
+GenEval == /\ pc = "gen" /\ pc' = "done"
+           /\ expect' = EvalExpected(input, SpInfo[input.st], ObInfo[input.ot])
+           /\ UNCHANGED <<input, order, k, table>>
+SpecEval == InitGen /\ [][GenEval]_vars
+
 \* the code-shaped table filled one object node per action, for every root order (E1)
 InitSteps == /\ input \in Inputs /\ order \in RootOrders(input)
              /\ pc = "fill" /\ k = Len(input.ot) /\ table = <<>> /\ expect = <<>>
